@@ -134,6 +134,15 @@ func ruleP2(c *Ctx, id string) {
 		}
 		// the scan offset: a register stepped on the back edges, or a cell advanced by the body / a local closure
 		off := findLoopVar(s, constOfPkg(P, "dir", "DIRENTSZ"))
+		bodyFn, sub := s, Subst{}
+		if off == nil {
+			// the loop is held by a private iterator that is handed the body as a function literal
+			if m := scanModelOf(c, s); m != nil {
+				off = m.off
+				bs := m.bodyScope()
+				bodyFn, sub = bs.Fn, bs.S
+			}
+		}
 		if off == nil {
 			R.Undecided(id, spec+"|offset variable", P.Pos(s.Pos()), "the scan loop has an offset variable", "no variable stepped by DIRENTSZ found")
 			continue
@@ -144,10 +153,10 @@ func ruleP2(c *Ctx, id string) {
 		fparam := funcParam(s)
 		isCb := func(in ssa.Instruction) bool {
 			cc := callCommon(in)
-			return cc != nil && !cc.IsInvoke() && cc.Value == ssa.Value(fparam)
+			return cc != nil && !cc.IsInvoke() && sub.resolve(stripConv(cc.Value)) == ssa.Value(fparam)
 		}
 		nLim := 0
-		for _, br := range branches(s) {
+		for _, br := range branches(bodyFn) {
 			// limit tests compare against a parameter (count / dircount / maxcount)
 			isLimit := false
 			for _, v := range []ssa.Value{br.Cond.X, br.Cond.Y} {
@@ -155,7 +164,7 @@ func ruleP2(c *Ctx, id string) {
 					continue
 				}
 				// the size limits are the integer parameters between the start cookie and the callback
-				if pm, ok := stripConv(v).(*ssa.Parameter); ok {
+				if pm, ok := sub.resolve(stripConv(v)).(*ssa.Parameter); ok {
 					for i, q := range s.Params {
 						if q == pm && i > 2 && q != fparam {
 							isLimit = true
@@ -174,7 +183,7 @@ func ruleP2(c *Ctx, id string) {
 				}
 				if hc != nil && hc.Call.StaticCallee() != nil && isPrivateHelper(hc.Call.StaticCallee()) {
 					for _, a := range hc.Call.Args {
-						if pm, ok := stripConv(a).(*ssa.Parameter); ok {
+						if pm, ok := sub.resolve(stripConv(a)).(*ssa.Parameter); ok {
 							for i, q := range s.Params {
 								if q == pm && i > 2 && q != fparam {
 									isLimit = true
@@ -189,7 +198,7 @@ func ruleP2(c *Ctx, id string) {
 			}
 			nLim++
 			last := br.Block.Instrs[len(br.Block.Instrs)-1]
-			R.Check(MustBefore(s, isCb)(last), id, fmt.Sprintf("%s|limit#%d after the callback", spec, nLim), P.Pos(last.Pos()), "a page-size test is reached only after the callback was invoked in this call", "must-precede", "a page can end before any entry was produced: the client gets an empty non-final page and loops")
+			R.Check(MustBefore(bodyFn, isCb)(last), id, fmt.Sprintf("%s|limit#%d after the callback", spec, nLim), P.Pos(last.Pos()), "a page-size test is reached only after the callback was invoked in this call", "must-precede", "a page can end before any entry was produced: the client gets an empty non-final page and loops")
 		}
 		if nLim == 0 {
 			R.Fail(id, spec+"|limits", P.Pos(s.Pos()), "the scanner tests its size limits", "no limit test found")
@@ -206,12 +215,22 @@ func ruleP3(c *Ctx, id string) {
 		return
 	}
 	fparam := funcParam(ap)
-	for _, b := range ap.Blocks {
-		for _, in := range b.Instrs {
-			cc := callCommon(in)
-			if cc == nil || cc.IsInvoke() || cc.Value != ssa.Value(fparam) {
-				continue
+	var sites []ssa.Instruction
+	// the callback is invoked in Apply's body, or in the function literal Apply hands to a slot iterator
+	for _, sc := range scopesOf(ap) {
+		for _, b := range sc.Fn.Blocks {
+			for _, in := range b.Instrs {
+				cc := callCommon(in)
+				if cc == nil || cc.IsInvoke() || sc.S.resolve(stripConv(cc.Value)) != ssa.Value(fparam) {
+					continue
+				}
+				sites = append(sites, in)
 			}
+		}
+	}
+	{
+		for _, in := range sites {
+			cc := callCommon(in)
 			// f(ip, de.name, de.inum, off)
 			ipv, namev, inumv := cc.Args[0], cc.Args[1], cc.Args[2]
 			_, nfl, nbase, _ := loadedField(namev)
@@ -319,7 +338,15 @@ func ruleP4(c *Ctx, id string) {
 		R.Analysed[FuncName(s)] = true
 		_, bound := scanBound(c, s)
 		if bound == nil {
-			R.Undecided(id, spec+"|bound test", P.Pos(s.Pos()), "the scan loop tests offset < directory size", "no such test found")
+			// the loop is not written in the scanner (a private iterator that is handed the body), or the result
+			// lives in a cell: explored path by path
+			m := scanModelOf(c, s)
+			if m == nil {
+				R.Undecided(id, spec+"|bound test", P.Pos(s.Pos()), "the scan loop tests offset < directory size", "no such test found")
+				continue
+			}
+			ok, why, n := m.trueOnlyAtEnd()
+			R.Check(ok && n > 0, id, spec+"|eof only at the end", P.Pos(s.Pos()), "the result is true only on paths that left the slot loop through its bound test", fmt.Sprintf("%d returning paths explored", n), why+": a page that ends before the last entry reports end-of-directory, the remaining entries are never returned")
 			continue
 		}
 		ok, why, n := trueOnlyViaBound(s, bound)
